@@ -24,8 +24,11 @@ impl DeviceSession for Holder {
 
 fn dname(i: usize) -> String { format!("d{i}") }
 fn nname(i: usize) -> String { format!("n{i}") }
-fn ename(i: usize) -> String { format!("e{i}") }
-fn idx(s: &str) -> usize { s[1..].parse().unwrap_or(99) }
+/// element identifiers: some of them are age attestations (`age_over_NN`, boolean values) - identifier 4 (`age_over_19`) is
+/// never held by the generators but often requested while its neighbours 18 and 21 are held
+const AGE_NAMES: [(usize, &str); 4] = [(1, "age_over_18"), (3, "age_over_21"), (4, "age_over_19"), (5, "age_over_65")];
+fn ename(i: usize) -> String { AGE_NAMES.iter().find(|(k, _)| *k == i).map(|(_, n)| n.to_string()).unwrap_or_else(|| format!("e{i}")) }
+fn idx(s: &str) -> usize { AGE_NAMES.iter().find(|(_, n)| *n == s).map(|(k, _)| *k).unwrap_or_else(|| s[1..].parse().unwrap_or(99)) }
 
 /// abstract case: held[d] = (can_sign, ns -> elems), request = list of (d, ns -> elems), permitted = d -> ns -> vec elems
 struct Case { held: BTreeMap<usize, (bool, BTreeMap<usize, Vec<usize>>)>, req: Vec<(usize, BTreeMap<usize, Vec<usize>>)>, perm: BTreeMap<usize, BTreeMap<usize, Vec<usize>>> }
@@ -36,13 +39,16 @@ fn make_item(d: usize, ns: usize, e: usize) -> Tag24<IssuerSignedItem> {
     let h = item_handle(d, ns, e);
     // digestIDs are unique within a namespace only: in every second document the namespaces reuse each other's ids
     let did = if d % 2 == 1 { e } else { h };
-    Tag24::new(IssuerSignedItem { digest_id: DigestId::new(did as i32), random: ByteStr::from(vec![7u8; 16]),
-        element_identifier: ename(e), element_value: Value::Integer((h as i64).into()) }).unwrap()
+    // the handle travels in `random`; the value is a boolean for age attestations (true up to 21, false above: a request for 19 has the held 21 as its nearest attestation) and the handle otherwise
+    let mut random = (h as u64).to_be_bytes().to_vec(); random.extend_from_slice(&[7u8; 8]);
+    let value = match ename(e).strip_prefix("age_over_").and_then(|n| n.parse::<u32>().ok()) { Some(n) => Value::Bool(n <= 21), None => Value::Integer((h as i64).into()) };
+    Tag24::new(IssuerSignedItem { digest_id: DigestId::new(did as i32), random: ByteStr::from(random), element_identifier: ename(e), element_value: value }).unwrap()
 }
 fn handle_of(t: &Tag24<IssuerSignedItem>) -> String {
     // the handle is recoverable only if the item is byte-identical to a held one
     let it = t.as_ref();
-    let h: i128 = match &it.element_value { Value::Integer(i) => (*i).into(), _ => -1 };
+    let r: &[u8] = it.random.as_ref();
+    let h: i128 = if r.len() == 16 { u64::from_be_bytes(r[..8].try_into().unwrap()) as i128 } else { -1 };
     let (d, ns, e) = ((h / 10000) as usize, ((h / 100) % 100) as usize, (h % 100) as usize);
     if h >= 0 && make_item(d, ns, e).inner_bytes == t.inner_bytes { h.to_string() } else { "999999".into() }
 }
@@ -98,10 +104,10 @@ fn to_permitted(c: &Case) -> PermittedItems {
 fn render(docs: Vec<(String, Vec<(String, Vec<Tag24<IssuerSignedItem>>)>, Vec<(String, Vec<String>)>)>, doc_errs: Vec<String>) -> (String, String, String, String) {
     let prepared = docs.iter().map(|(d, dis, errs)| format!("{}:{}:{}", idx(d),
         dis.iter().map(|(ns, its)| format!("{}={}", idx(ns), its.iter().map(handle_of).collect::<Vec<_>>().join("."))).collect::<Vec<_>>().join(";"),
-        errs.iter().map(|(ns, es)| format!("{}={}", idx(ns), es.iter().map(|e| idx(e).to_string()).collect::<Vec<_>>().join("."))).collect::<Vec<_>>().join(";"))).collect::<Vec<_>>().join("|");
+        errs.iter().map(|(ns, es)| format!("{}={}", idx(ns), { let mut v: Vec<usize> = es.iter().map(|e| idx(e)).collect(); v.sort(); v.iter().map(|e| e.to_string()).collect::<Vec<_>>().join(".") })).collect::<Vec<_>>().join(";"))).collect::<Vec<_>>().join("|");
     let out = docs.iter().map(|(d, dis, _)| format!("{}:{}", idx(d), dis.iter().map(|(ns, its)| format!("{}={}", idx(ns),
         its.iter().map(|t| format!("{}~{}", idx(&t.as_ref().element_identifier), handle_of(t))).collect::<Vec<_>>().join("."))).collect::<Vec<_>>().join(";"))).collect::<Vec<_>>().join("|");
-    let errs = docs.iter().map(|(d, _, errs)| format!("{}:{}", idx(d), errs.iter().map(|(ns, es)| format!("{}={}", idx(ns), es.iter().map(|e| idx(e).to_string()).collect::<Vec<_>>().join("."))).collect::<Vec<_>>().join(";"))).collect::<Vec<_>>().join("|");
+    let errs = docs.iter().map(|(d, _, errs)| format!("{}:{}", idx(d), errs.iter().map(|(ns, es)| format!("{}={}", idx(ns), { let mut v: Vec<usize> = es.iter().map(|e| idx(e)).collect(); v.sort(); v.iter().map(|e| e.to_string()).collect::<Vec<_>>().join(".") })).collect::<Vec<_>>().join(";"))).collect::<Vec<_>>().join("|");
     let de = doc_errs.iter().map(|d| idx(d).to_string()).collect::<Vec<_>>().join(".");
     let dash = |s: String| if s.is_empty() { "-".to_string() } else { s };
     (format!("{}#{}", dash(prepared), dash(de.clone())), dash(out), dash(errs), dash(de))
